@@ -210,6 +210,11 @@ class RedfieldRelaxationTensor(RelaxationTensor):
             else:
                 S1 = inv
 
+            # the values are written back into the storage
+            self._Lm = self._storage_for_transform(self._Lm, SS)
+            self._Ld = self._storage_for_transform(self._Ld, SS)
+            self._Km = self._storage_for_transform(self._Km, SS)
+
             for m in range(self._Lm.shape[0]):
                 self._Lm[m,:,:] = numpy.dot(S1,numpy.dot(self._Lm[m,:,:], SS))  
                 self._Ld[m,:,:] = numpy.dot(S1,numpy.dot(self._Ld[m,:,:], SS))
